@@ -435,8 +435,23 @@ def parse_writer_file(T, mod, src):
         e2 = balanced(body, m2.end() - 1)
         stmts = split_statements(body[m2.end():e2 - 1])
         rd = re.search(r"FromObjRef<read_fonts::tables::(\w+)::(\w+)(?:<[^>]*>)?>\s+for\s+%s\b" % name, src)
+        fo = None
+        if rd:
+            # the struct literal of `from_obj_ref`: `field: obj.getter(..)…`
+            mfo = re.search(r"FromObjRef<read_fonts::tables::\w+::\w+(?:<[^>]*>)?>\s+for\s+%s\s*\{" % name, src)
+            e = balanced(src, mfo.end() - 1) if mfo else None
+            ml = re.search(r"\b%s\s*\{" % name, src[mfo.end():e]) if mfo else None
+            if ml:
+                ls = mfo.end() + ml.end() - 1
+                le = balanced(src, ls)
+                fo = {}
+                for part in split_top(src[ls + 1:le - 1], ","):
+                    part = tight(part)
+                    mm = re.fullmatch(r"(\w+):(.*)", part)
+                    if mm:
+                        fo[mm.group(1)] = mm.group(2)
         out[name] = {"fields": structs[name]["fields"], "generic": structs[name]["generic"] or bool(m.group(1)),
-                     "stmts": stmts, "reader": (rd.group(1), rd.group(2)) if rd else None}
+                     "stmts": stmts, "reader": (rd.group(1), rd.group(2)) if rd else None, "from_obj": fo}
     return out
 
 def writer_field_item(T, W, mod, fty):
@@ -663,6 +678,14 @@ def build_pair(T, W, R, mod, name, wd, computed_ids):
         kind = "record"
     else:
         raise NotCovered(f"reader {rkey[0]}::{rkey[1]} is not a generated table marker or fixed-size record")
+    # `from_obj_ref` (the third generated piece): every owned field must be converted from the getter of the same name
+    # (`f: obj.f()`, `f: obj.f().to_owned_obj(..)`, `f: obj.f().to_owned_table()`, `f: convert(obj.f())` …)
+    if wd.get("from_obj") is not None:
+        for d in wst:
+            if d.get("name") and (d["kind"] == "array" or d.get("src") == ".field"):
+                e = wd["from_obj"].get(d["name"])
+                if e is None or not re.search(r"\bobj\.%s\((?:offset_data)?\)" % d["name"], e):
+                    raise NotCovered(f"from_obj_ref converts field {d['name']} from: {e}")
     names = [f["name"] for f in rfields]
     # the writer names an offset field without its `_offset(s)` suffix (codegen rule, transcribed above)
     mnames = [remove_offset_from_field_name(f["name"]) if is_offset_ty(f.get("ty") if f["kind"] == "scalar" else f.get("elemty")) else f["name"]
@@ -854,6 +877,38 @@ def main():
     path = os.path.join(a.out, "WriteProgs.lean")
     if not os.path.exists(path) or open(path).read() != text:
         open(path, "w").write(text)
+    # ---- link to the C01 reader shapes (translate/shapes.py output), when present
+    shapes_path = os.path.join(a.out, "ReadShapes.lean")
+    shape_names = set()
+    if os.path.exists(shapes_path):
+        for f in glob.glob(os.path.join(a.out, "ReadShapes*.lean")):
+            shape_names |= set(re.findall(r"^def (\w+)_shape : Shape :=", open(f).read(), flags=re.M))
+    linked, unlinked = [], []
+    K = []
+    K.append("/- GENERATED by translate/writers.py — the reader layouts of Gen/WriteProgs.lean agree structurally with the C01 reader shapes of Gen/ReadShapes*.lean (translate/shapes.py) — do not edit -/")
+    K.append("import FontVerif.Model.FieldShape")
+    K.append("import FontVerif.Gen.WriteProgs")
+    K.append("import FontVerif.Gen.ReadShapes")
+    K.append("set_option maxRecDepth 8192")
+    K.append("namespace FontVerif.Gen.WriteProgsLink")
+    K.append("open FontVerif.FieldShape FontVerif.Gen")
+    K.append("")
+    for k in sorted(covered):
+        v = covered[k]
+        if v["kind"] != "table":
+            continue
+        sn = f"{v['reader'][0]}_{v['reader'][1]}"
+        if sn in shape_names:
+            K.append(f"theorem {k}_reader_agrees : agrees ReadShapes.{sn}_shape WriteProgs.{k}_r = true := by decide +kernel")
+            linked.append(k)
+        else:
+            unlinked.append(k)
+    K.append("")
+    K.append("end FontVerif.Gen.WriteProgsLink")
+    ktext = "\n".join(K) + "\n"
+    kpath = os.path.join(a.out, "WriteProgsLink.lean")
+    if not os.path.exists(kpath) or open(kpath).read() != ktext:
+        open(kpath, "w").write(ktext)
     # ---- report
     reasons = {}
     for k, r in not_covered.items():
@@ -880,6 +935,8 @@ def main():
         "covered": sorted(set(v["type"] for k, v in covered.items() if len(by_name[v["type"]]) == 1)),
         "covered_pairs": cov_names,
         "computed_fields": sorted(computed_ids),
+        "reader_layouts_linked_to_C01_shapes": len(linked),
+        "reader_layouts_without_C01_shape": unlinked,
         "pairs_unconditional": len([k for k in covered if not covered[k]["assumes"]]),
         "assumed": {k: covered[k]["assume_text"] for k in cov_names if covered[k]["assumes"]},
         "not_covered": not_covered,
